@@ -46,6 +46,22 @@ class Lock:
         self.f.close()
 
 # ------------------------------------------------------------------ builds
+# the translators besides tools/translate.py: (script, generated file under coq/theories/Gen, tag used in BROKEN lines, proof file tied to it)
+TRANSLATORS = [
+    ('translate_lex.py', 'LexTables', 'lexical', 'Proofs/LexTables.v'),
+    ('translate_fmt.py', 'FmtTables', 'fmt', 'Proofs/SerFmt.v'),
+    ('translate_num.py', 'NumTables', 'num', 'Proofs/NumAccSrc.v'),
+    ('translate_keys.py', 'KeyTables', 'keys', 'Proofs/SerKeys.v'),
+    ('translate_eq.py', 'EqTables', 'eq', 'Proofs/PointerEqSrc.v'),
+    ('translate_scan.py', 'ScanTables', 'scan', 'Proofs/ScanSrc.v'),
+    ('translate_cursor.py', 'CursorTables', 'cursor', 'Proofs/CursorSrc.v'),
+    ('translate_ignore.py', 'IgnoreTables', 'ignore', 'Proofs/IgnoreSrc.v'),
+    ('translate_ptr.py', 'PtrTables', 'ptr', 'Proofs/PointerSrc.v'),
+    ('translate_map.py', 'MapTables', 'map', 'Proofs/MapSrc.v'),
+    ('translate_ser.py', 'SerTables', 'ser', 'Proofs/SerSrc.v'),
+]
+TRANSLATORS = [t for t in TRANSLATORS if os.path.exists(os.path.join(VERIF, 'tools', t[0]))]
+
 def translate():
     """regenerate Gen/Tables.v from /repo/src; returns list of broken items"""
     if ALT:
@@ -58,13 +74,7 @@ def translate():
             import difflib
             d = [l for l in difflib.unified_diff(open(cur).read().splitlines(), open(tmp).read().splitlines(), lineterm='', n=0) if l[:1] in '+-' and not l.startswith(('+++', '---'))]
             broken.append('BROKEN tables-changed (theorems about the generated tables would have to be re-proved): ' + ' | '.join(x[:120] for x in d[:4]))
-        for script, gen, label in (('translate_lex.py', 'LexTables', 'lexical tables'), ('translate_fmt.py', 'FmtTables', 'fmt: formatter method bodies'),
-                                   ('translate_num.py', 'NumTables', 'num: Number accessor arms'), ('translate_keys.py', 'KeyTables', 'keys: map-key serializer methods'),
-                                   ('translate_eq.py', 'EqTables', 'eq: partialeq_numeric groups'),
-                                   ('translate_scan.py', 'ScanTables', 'scan: arbitrary_precision number scanner'),
-                                   ('translate_cursor.py', 'CursorTables', 'cursor: skipper / ident / whitespace / separators'),
-                                   ('translate_ptr.py', 'PtrTables', 'ptr: pointer parameters'),
-                                   ('translate_ignore.py', 'IgnoreTables', 'ignore: the iterative skip scanner'), ('translate_map.py', 'MapTables', 'map: Map wrapper delegation'), ('translate_ser.py', 'SerTables', 'ser: Serializer / Compound methods')):
+        for script, gen, tagname, proof in TRANSLATORS:
             tl = os.path.join(VERIF, 'tools', script)
             if not os.path.exists(tl):
                 continue
@@ -75,16 +85,16 @@ def translate():
             def differs():
                 return os.path.exists(tmp2) and os.path.exists(cur2) and open(tmp2).read() != open(cur2).read()
             if differs() and (time.sleep(3) or differs()):       # re-read once: a concurrent main-mode run may be rewriting the shared file
-                if gen in ('FmtTables', 'NumTables', 'KeyTables', 'EqTables', 'ScanTables', 'CursorTables', 'PtrTables', 'MapTables', 'SerTables', 'IgnoreTables'):
+                if gen != 'LexTables':
                     import difflib
                     d = [l for l in difflib.unified_diff(open(cur2).read().splitlines(), open(tmp2).read().splitlines(), lineterm='', n=0) if l[:1] in '+-' and not l.startswith(('+++', '---'))]
-                    broken.append('BROKEN %s:tables-changed (%s would have to be re-proved against the translated source): ' % {'FmtTables': ('fmt', 'Proofs/SerFmt.v'), 'NumTables': ('num', 'Proofs/NumAccSrc.v'), 'KeyTables': ('keys', 'Proofs/SerKeys.v'), 'EqTables': ('eq', 'Proofs/PointerEqSrc.v'), 'ScanTables': ('scan', 'Proofs/ScanSrc.v'), 'CursorTables': ('cursor', 'Proofs/CursorSrc.v'), 'PtrTables': ('ptr', 'Proofs/PointerSrc.v'), 'MapTables': ('map', 'Proofs/MapSrc.v'), 'SerTables': ('ser', 'Proofs/SerSrc.v'), 'IgnoreTables': ('ignore', 'Proofs/IgnoreSrc.v')}[gen] + ' | '.join(x[:140] for x in d[:4]))
+                    broken.append('BROKEN %s:tables-changed (%s would have to be re-proved against the translated source): ' % (tagname, proof) + ' | '.join(x[:140] for x in d[:4]))
                 else:
                     broken.append('BROKEN lexical tables changed (theorems about the generated lexical tables would have to be re-proved)')
         return broken, out
     rc, out = sh(['python3', os.path.join(VERIF, 'tools', 'translate.py'), '--repo', REPO])
     broken = [l for l in out.splitlines() if l.startswith('BROKEN')]
-    for script in ('translate_lex.py', 'translate_fmt.py', 'translate_num.py', 'translate_keys.py', 'translate_eq.py', 'translate_scan.py', 'translate_cursor.py', 'translate_ptr.py', 'translate_map.py', 'translate_ser.py', 'translate_ignore.py'):
+    for script in [t[0] for t in TRANSLATORS]:
         if os.path.exists(os.path.join(VERIF, 'tools', script)):
             rc2, out2 = sh(['python3', os.path.join(VERIF, 'tools', script), '--repo', REPO])
             broken += [l for l in out2.splitlines() if l.startswith('BROKEN')]
@@ -329,19 +339,17 @@ def coqchk(pid, timeout=2400):
 SER_ITEMS = ('ESCAPE_TABLE', 'CHAR_ESCAPE_SHAPE')
 SER_PROPS = ('C03', 'C04', 'C05', 'C13', 'C15', 'C16')
 LEX_PROPS = ('C07', 'C04', 'C16', 'C01', 'C02')
-INDEPENDENT = ('C17', 'C18')          # Map / pointer / macro developments use no generated table
+INDEPENDENT = ('C17', 'C18')          # Map / pointer / macro developments use none of the tables of tools/translate.py
+PARSER_PROPS = ('C01', 'C02', 'C09', 'C10', 'C11', 'C12', 'C13', 'C14', 'C19')
+TAG_PROPS = {'fmt': SER_PROPS, 'keys': SER_PROPS, 'ser': SER_PROPS, 'vser': ('C15', 'C03'), 'num': ('C06', 'C18', 'C20'), 'eq': ('C18',), 'ptr': ('C18',), 'map': ('C17',),
+             'scan': ('C20', 'C06') + PARSER_PROPS, 'cursor': PARSER_PROPS, 'ignore': PARSER_PROPS, 'de': PARSER_PROPS + ('C04', 'C06', 'C16'),
+             'numparse': PARSER_PROPS + ('C06', 'C08'), 'str': PARSER_PROPS + ('C05',), 'vde': ('C16', 'C06')}
 
 def tie_relevant(pid, broken_line):
-    if broken_line.startswith('BROKEN map:'):
-        return pid == 'C17'
-    if broken_line.startswith('BROKEN ser:'):
-        return pid in SER_PROPS
-    if broken_line.startswith('BROKEN eq:') or broken_line.startswith('BROKEN ptr'):
-        return pid == 'C18'
-    if broken_line.startswith('BROKEN cursor:') or broken_line.startswith('BROKEN ignore:'):
-        return pid in ('C01', 'C02', 'C09', 'C10', 'C11', 'C12', 'C13', 'C14', 'C19')
-    if broken_line.startswith('BROKEN scan:'):
-        return pid in ('C20', 'C06', 'C01', 'C02', 'C09', 'C10', 'C11', 'C12', 'C13')
+    # statement-level translators: `BROKEN <tag>:...` concerns the properties whose cone contains the proof tied to that translator
+    mt = re.match(r'BROKEN\s+([a-z0-9]+):', broken_line)
+    if mt and mt.group(1) in TAG_PROPS:
+        return pid in TAG_PROPS[mt.group(1)]
     if pid in INDEPENDENT:
         return False
     m = re.match(r'BROKEN\s+([A-Za-z0-9_-]+)', broken_line)
